@@ -96,7 +96,17 @@ impl<VM: VMBinding> GCTrigger<VM> {
     /// Clear the "GC requested" flag so that mutators can trigger the next GC.
     /// Called by a GC worker when all mutators have come to a stop.
     pub fn clear_request(&self) {
+        #[cfg(feature = "verif")]
+        crate::util::verif::rt::sched_point(crate::util::verif::rt::Kind::RequestFlag, 2);
+        #[cfg(feature = "verif")]
+        crate::util::verif::rt::event("gc_request_cleared", 0, 0);
         self.request_flag.store(false, Ordering::Relaxed);
+    }
+
+    /// Verification hook (feature `verif`): the "GC requested" flag.
+    #[cfg(feature = "verif")]
+    pub(crate) fn verif_request_flag(&self) -> bool {
+        self.request_flag.load(Ordering::SeqCst)
     }
 
     /// This method is called periodically by the allocation subsystem
